@@ -667,6 +667,41 @@ func r08_5(c *Ctx, rule string) {
 					c.R.OK(rule, name, "-", "a "+types.TypeString(f.Type(), nil)+": safe for concurrent use")
 					continue
 				}
+				// a new field next to fields whose sharing argument is "only these
+				// functions touch it, and they run in one goroutine": the argument
+				// covers the new field if it is touched by the same functions only
+				var sib []string
+				sibOK := false
+				for tn, te := range sharedFieldTable {
+					if strings.HasPrefix(tn, typ+".") && (te.kind == "reasoned" || te.kind == "confined") && len(te.funcs) > 0 {
+						if sib == nil {
+							sib, sibOK = te.funcs, true
+						} else if strings.Join(sortedStrings(append([]string(nil), te.funcs...)), ",") != strings.Join(sortedStrings(append([]string(nil), sib...)), ",") {
+							sibOK = false
+						}
+					}
+				}
+				if sibOK && len(cen.FieldEscapes(f)) == 0 {
+					allowed := map[string]bool{}
+					for _, a := range sib {
+						allowed[a] = true
+					}
+					inside := true
+					for _, fa := range cen.FieldAddrs(f) {
+						if accIsFresh(fa) {
+							continue
+						}
+						for _, top := range c.tops(fa) {
+							if !allowed[c.name(top)] {
+								inside = false
+							}
+						}
+					}
+					if inside {
+						c.R.OK(rule, name, "-", "a new field touched only by "+strings.Join(sib, ", ")+", like every classified field of "+typ+": the same sharing argument applies")
+						continue
+					}
+				}
 				where := "-"
 				if len(muts) > 0 {
 					where = c.pos(muts[0])
